@@ -84,3 +84,19 @@ Theorem C07h_output_location_refuted :
     files _ facts_all_true tbl_outpath render0 e1 (mk_cfg LC false) I p
     <> files _ facts_all_true tbl_outpath render0 e2 (mk_cfg LC false) I p.
 Proof. exact output_location_refuted. Qed.
+
+(* F-PY-PICKLEPATH (fixed b86b49b): while `T | pickle` carried the absolute source path, the Python statement held only for
+   runs at the same location; these are the statements of that era, on the quirk table [tbl_py_pickle] *)
+Theorem C07h_py_pickle_abs_path_refuted :
+  exists I e1 e2 p,
+    files _ facts_all_true tbl_py_pickle render0 e1 (mk_cfg LPy false) I p
+    <> files _ facts_all_true tbl_py_pickle render0 e2 (mk_cfg LPy false) I p.
+Proof. exact py_pickle_abs_path_refuted. Qed.
+
+Theorem C07h_run_env_indep_py_same_location_only :
+  forall (B : Type) sf tbl (render : env -> cfg -> item -> list (list str) -> B),
+    render_sees_only_body_view B sf render ->
+    forall (c : cfg) (I : list tydecl) (e1 e2 : env),
+      c_embed_audit c = false -> src_facts_ok sf = true -> lang_clean_but_pickle sf tbl (c_lang c) = true -> e_abs e1 = e_abs e2 ->
+      forall p, files B sf tbl render e1 c I p = files B sf tbl render e2 c I p.
+Proof. intros B sf tbl render Hr c I e1 e2. exact (run_env_indep_same_location B sf tbl render Hr e1 e2 c I). Qed.
